@@ -1,3 +1,5 @@
+import Pcore.Model.SerArms
+import Pcore.Model.SpanCodec
 /-
   C10 model — serialization/serializer.go, types/basiccollector.go, serialization/deserializer.go
   (the code as it is after the `fix:` commits "serializer recorded a position for a value whose emitter produced
@@ -29,14 +31,18 @@
   emits) is the explicit error `cyclic`.  `ds.converted[x] = h` happens in Go before the children are converted and
   here after; the difference is only visible on cyclic data.
 
-  Parameters (modelled, not verified — DESIGN.md §5): the leaf codecs.  A leaf carries the two strings the real codec
+  Leaf codecs inside the model: Binary (base64, `b64`/`unb64`, proved to invert), Timespan (the default format,
+  Model/SpanCodec.lean, `parseSpan (printSpan ns) = some ns` proved), Regexp (SerializationString is the pattern source
+  and decoding compiles that source: the identity on the text — only "the source compiles" is outside the model).
+  Parameters (modelled, not verified — DESIGN.md §5): the other leaf codecs.  A leaf carries the two strings the real codec
   prints (`enc` = SerializationString(), `disp` = String()); decoding a `__pvalue` string for a known type name gives
   the leaf back.  Base64 is concrete (`b64` / `unb64`).  `String()` of floats and containers (needed only for
   non-string hash keys with rich_data=false and a consumer without complex keys) is not modelled: `V.dispOk`.
   Object instances are modelled for the object types of the harness's catalogue (`objTypes`; all attributes of type Any):
   an instance is its type name and the entries of its init hash; construction from the named arguments is assumed to
-  give back an object with that init hash.  Type definitions that travel as Pcore::ObjectType instances are not
-  modelled (the harness runs them on the implementation only).
+  give back an object with that init hash.  An object TYPE no loader knows travels the same way — as an instance of the
+  meta type Pcore::ObjectType whose init hash is the definition (name, parent, attributes …) — and is modelled as such an
+  instance; that the deserializer registers it with the loader (`newTypes`, `AddTypes`) is not modelled.
   Logging is ignored.  Core-only file (linked into the driver).
 -/
 namespace Pcore.Ser
@@ -374,6 +380,148 @@ end
 /-- `NewSerializer(ctx, opts).Convert(v, consumer)` -/
 def serialize (o : Opts) (cp : Caps) (v : V) : Ev := (toData (mkCfg o cp) 1 v St.init).1
 
+/-! ### the same serializer, executing the emit discipline read from the code (fact family `serarms`)
+
+`toDataE E` is `toData` with the three emit primitives and the wrapper `process` executed as the regenerated statement
+lists say (`E = emitOf Generated.serArms`): `E.*Pre` increments before the consumer call (the children of a container
+see them), `E.*Post` after it; `E.recordAfter = false` is the wrapper before the fix (records the position first).
+The driver runs `toDataE`; the theorems are proved for `toData`, and `toDataE Emit.std = toData`
+(`Proofs/SerArms.lean`), with `emitOf Generated.serArms = Emit.std` an obligation discharged by `decide` on every run. -/
+
+def bumpN (n : Nat) (st : St) : St := { st with ref := st.ref + n }
+
+def addDataE (E : Emit) (d : Sc) (st : St) : Ev × St := (.add d, bumpN (E.dataPre + E.dataPost) st)
+
+/-- the wrapper before running the emitter: the old code recorded the position here -/
+def enterE (E : Emit) (c : Cfg) (k : Key) (st : St) : St :=
+  if E.recordAfter || c.dedup = 0 then st else { st with vals := (k, st.ref) :: st.vals }
+
+def recordE (E : Emit) (c : Cfg) (k : Key) (pos : Nat) (r : Ev × St) : Ev × St :=
+  if E.recordAfter then record c k pos r else r
+
+def strDataE (E : Emit) (c : Cfg) (level : Nat) (s : String) (st : St) : Ev × St :=
+  if c.dedup ≥ level ∧ s.utf8ByteSize ≥ c.thr then
+    match seen c (.str s) st with
+    | some r => (.ref r, st)
+    | none => recordE E c (.str s) st.ref (addDataE E (.str s) (enterE E c (.str s) st))
+  else addDataE E (.str s) st
+
+def head3E (E : Emit) (c : Cfg) (tl : Nat) (tname : String) (st : St) : List Ev × St :=
+  let r1 := strDataE E c 2 "__ptype" st
+  let r2 := strDataE E c tl tname r1.2
+  let r3 := strDataE E c 2 "__pvalue" r2.2
+  ([r1.1, r2.1, r3.1], r3.2)
+
+mutual
+def toDataE (E : Emit) (c : Cfg) (level : Nat) : V → St → Ev × St
+  | .undef, st => addDataE E .undef st
+  | .bool b, st => addDataE E (.bool b) st
+  | .int i, st => addDataE E (.int i) st
+  | .flt f, st => addDataE E (.flt f) st
+  | .str s, st => strDataE E c level s st
+  | .dflt, st =>
+    if c.rich then
+      let r1 := strDataE E c 2 "__ptype" (bumpN E.hashPre st)
+      let r2 := strDataE E c 1 "Default" r1.2
+      (.hsh [r1.1, r2.1], bumpN E.hashPost r2.2)
+    else strDataE E c 1 "default" st
+  | .hash id es, st =>
+    match seen c (.ptr id) st with
+    | some r => (.ref r, st)
+    | none =>
+      if c.cplx || allStrKeys es then
+        let r := pairsDataE E c es (bumpN E.hashPre (enterE E c (.ptr id) st))
+        recordE E c (.ptr id) st.ref (.hsh r.1, bumpN E.hashPost r.2)
+      else if c.rich then
+        let h := head3E E c 1 "Hash" (bumpN E.hashPre (enterE E c (.ptr id) st))
+        let r := flatDataE E c es (bumpN E.arrPre h.2)
+        recordE E c (.ptr id) st.ref (.hsh (h.1 ++ [.arr r.1]), bumpN E.hashPost (bumpN E.arrPost r.2))
+      else
+        let r := skeyDataE E c es (bumpN E.hashPre (enterE E c (.ptr id) st))
+        recordE E c (.ptr id) st.ref (.hsh r.1, bumpN E.hashPost r.2)
+  | .arr id vs, st =>
+    match seen c (.ptr id) st with
+    | some r => (.ref r, st)
+    | none =>
+      let r := listDataE E c vs (bumpN E.arrPre (enterE E c (.ptr id) st))
+      recordE E c (.ptr id) st.ref (.arr r.1, bumpN E.arrPost r.2)
+  | .sens id v, st =>
+    match seen c (.ptr id) st with
+    | some r => (.ref r, st)
+    | none =>
+      if c.rich then
+        let h := head3E E c 1 "Sensitive" (bumpN E.hashPre (enterE E c (.ptr id) st))
+        let r := toDataE E c 1 v h.2
+        recordE E c (.ptr id) st.ref (.hsh (h.1 ++ [r.1]), bumpN E.hashPost r.2)
+      else recordE E c (.ptr id) st.ref (strDataE E c level sensitiveText (enterE E c (.ptr id) st))
+  | .bin id bs, st =>
+    match seen c (.ptr id) st with
+    | some r => (.ref r, st)
+    | none =>
+      if c.bin then recordE E c (.ptr id) st.ref (addDataE E (.bin bs) (enterE E c (.ptr id) st))
+      else if c.rich then
+        let h := head3E E c 1 "Binary" (bumpN E.hashPre (enterE E c (.ptr id) st))
+        let r := strDataE E c 1 (b64 bs) h.2
+        recordE E c (.ptr id) st.ref (.hsh (h.1 ++ [r.1]), bumpN E.hashPost r.2)
+      else recordE E c (.ptr id) st.ref (strDataE E c level (b64 bs) (enterE E c (.ptr id) st))
+  | .leaf id k enc disp, st =>
+    if c.rich then
+      match seen c (leafKey id k enc) st with
+      | some r => (.ref r, st)
+      | none =>
+        let h := head3E E c k.typeLevel k.typeName (bumpN E.hashPre (enterE E c (leafKey id k enc) st))
+        let r := strDataE E c 1 enc h.2
+        recordE E c (leafKey id k enc) st.ref (.hsh (h.1 ++ [r.1]), bumpN E.hashPost r.2)
+    else strDataE E c 1 disp st
+  | .obj id tn disp attrs, st =>
+    if c.rich then
+      match seen c (.ptr id) st with
+      | some r => (.ref r, st)
+      | none =>
+        let r1 := strDataE E c 2 "__ptype" (bumpN E.hashPre (enterE E c (.ptr id) st))
+        let r2 := strDataE E c 1 tn r1.2
+        let r3 := attrsDataE E c attrs r2.2
+        recordE E c (.ptr id) st.ref (.hsh (r1.1 :: r2.1 :: r3.1), bumpN E.hashPost r3.2)
+    else strDataE E c 1 disp st
+def listDataE (E : Emit) (c : Cfg) : List V → St → List Ev × St
+  | [], st => ([], st)
+  | v :: vs, st =>
+    let r1 := toDataE E c 1 v st
+    let r2 := listDataE E c vs r1.2
+    (r1.1 :: r2.1, r2.2)
+def pairsDataE (E : Emit) (c : Cfg) : List (V × V) → St → List Ev × St
+  | [], st => ([], st)
+  | (k, v) :: es, st =>
+    let r1 := toDataE E c 2 k st
+    let r2 := toDataE E c 1 v r1.2
+    let r3 := pairsDataE E c es r2.2
+    (r1.1 :: r2.1 :: r3.1, r3.2)
+def flatDataE (E : Emit) (c : Cfg) : List (V × V) → St → List Ev × St
+  | [], st => ([], st)
+  | (k, v) :: es, st =>
+    let r1 := toDataE E c 1 k st
+    let r2 := toDataE E c 1 v r1.2
+    let r3 := flatDataE E c es r2.2
+    (r1.1 :: r2.1 :: r3.1, r3.2)
+def skeyDataE (E : Emit) (c : Cfg) : List (V × V) → St → List Ev × St
+  | [], st => ([], st)
+  | (k, v) :: es, st =>
+    let r1 := strDataE E c 2 k.disp st
+    let r2 := toDataE E c 1 v r1.2
+    let r3 := skeyDataE E c es r2.2
+    (r1.1 :: r2.1 :: r3.1, r3.2)
+def attrsDataE (E : Emit) (c : Cfg) : List (String × V) → St → List Ev × St
+  | [], st => ([], st)
+  | (k, v) :: as, st =>
+    let r1 := strDataE E c 2 k st
+    let r2 := toDataE E c 1 v r1.2
+    let r3 := attrsDataE E c as r2.2
+    (r1.1 :: r2.1 :: r3.1, r3.2)
+end
+
+/-- `Convert` with the emit discipline `E` -/
+def serializeE (E : Emit) (o : Opts) (cp : Caps) (v : V) : Ev := (toDataE E (mkCfg o cp) 1 v St.init).1
+
 /-- is `String()` of everything the serializer would stringify modelled?  (only keys of non-string-keyed hashes with
     rich_data=false and no complex-key support can be floats or containers) -/
 def V.keyDispOk : V → Bool
@@ -487,7 +635,7 @@ def lookupLast (name : String) : List (V × V) → Option V
     if k.isKey name && !hasKey name es then some v else lookupLast name es
 
 /-- the object types the loader knows (the harness's catalogue) -/
-def objTypes : List String := ["Verif::Pair", "Verif::Box", "Verif::Unit"]
+def objTypes : List String := ["Verif::Pair", "Verif::Box", "Verif::Unit", "Pcore::ObjectType"]
 def isObjType (tn : String) : Bool := objTypes.contains tn
 
 def kindOfTypeName (tn : String) : Option Kind := Kind.all.find? (fun k => k.typeName == tn)
@@ -499,10 +647,21 @@ def decodeLeaf (tn s : String) (nid : Nat) : Except DErr V :=
     match unb64 s with
     | some bs => .ok (.bin 0 bs)
     | none => .error .badValue
+  else if tn = "Timespan" then
+    -- the real codec (Model/SpanCodec.lean): ParseTimespan with the default format; the value is its nanoseconds
+    match parseSpan s with
+    | some ns => .ok (.leaf nid .ts (printSpan ns) "")
+    | none => .error .badValue
   else
     match kindOfTypeName tn with
     | some k => .ok (.leaf nid k s "")
     | none => .error .unresolved
+
+/-- is the payload of a leaf what its codec prints?  Timespan: the default format of some number of nanoseconds
+    (real codec); Regexp: any source text (the codec is the identity on it); the other kinds are abstract -/
+def canonLeaf : Kind → String → Bool
+  | .ts, enc => canonSpan enc
+  | _, _ => true
 
 mutual
 /-- `dsContext.convert` -/
